@@ -21,9 +21,9 @@ FORBIDDEN = re.compile(r"\bsorry\b|\badmit\b|^axiom |native_decide|bv_decide|imp
 TRUSTED_BASE = [
     "Lean 4.33.0 kernel (lake build); axioms allowed: propext, Classical.choice, Quot.sound — anything else fails the audit",
     "lean/JellyModel/Spec.lean as the reading of the Jelly rules (spec/rdf.proto comments + property statements)",
-    "harness/gen_tables.py (translator for finite facts), harness/gen_translate.py + gen_translate_flows.py + gen_translate_funcs.py + gen_translate_enc.py + gen_translate_dec.py + gen_translate_stmt.py + gen_translate_dstmt.py + lean/JellyModel/PyPrelude*.lean (translators for "
+    "harness/gen_tables.py (translator for finite facts), harness/gen_translate.py + gen_translate_flows.py + gen_translate_funcs.py + gen_translate_enc.py + gen_translate_dec.py + gen_translate_stmt.py + gen_translate_dstmt.py + gen_translate_stream.py + lean/JellyModel/PyPrelude*.lean (translators for "
     "the lookup classes, the frame-flow classes, split_iri / delimited_jelly_hint / the options validators and TermEncoder.start_row / end_row / "
-    "encode_iri_indices / encode_literal, Decoder.ingest_*_entry / decode_iri / decode_literal, the module-level encode_spo / encode_triple / encode_quad (with the integration's per-term encoder as a parameter assumed to behave like the model's), Decoder.decode_statement / decode_triple / decode_quad (with decode_term as such a parameter; the `is None` test after a repeated-term read treated as dead code): Python ast -> Lean, and the meaning it gives to OrderedDict / deque / set / bytes / rpartition / exceptions "
+    "encode_iri_indices / encode_literal, Decoder.ingest_*_entry / decode_iri / decode_literal, the module-level encode_spo / encode_triple / encode_quad (with the integration's per-term encoder as a parameter assumed to behave like the model's), Decoder.decode_statement / decode_triple / decode_quad (with decode_term as such a parameter; the `is None` test after a repeated-term read treated as dead code), TripleStream.triple / QuadStream.quad / Stream.enroll (the flow's frame_from_bounds as a parameter instantiated per flow class): Python ast -> Lean, and the meaning it gives to OrderedDict / deque / set / bytes / rpartition / exceptions "
     "and to the oneof of an RdfLiteral message) and the differential "
     "harness (correspondence check)",
     "the Lean compiler for the driver executable jellydrv; CPython 3.12; protobuf/upb, rdflib modelled not verified",
@@ -76,11 +76,12 @@ def build(pid: str, modules: list[str], theorems: list[str], tier: str = "quick"
         # translator for the lookup classes (Python source -> Lean): a source outside the translated fragment is a broken tie
         # the translators. A source that left a translator's fragment breaks the tie of the properties whose theorems rest on
         # that translation (and on the translations built on it) — not of every property.
-        affected = {"gen_translate.py": {"Translated", "TranslatedFlows", "TranslatedEnc", "TranslatedDec", "TranslatedStmt"},
-                    "gen_translate_flows.py": {"TranslatedFlows"},
-                    "gen_translate_funcs.py": {"TranslatedFuncs", "TranslatedEnc", "TranslatedStmt"}, "gen_translate_enc.py": {"TranslatedEnc", "TranslatedStmt"},
-                    "gen_translate_dec.py": {"TranslatedDec"}, "gen_translate_stmt.py": {"TranslatedStmt"},
-                    "gen_translate_dstmt.py": {"TranslatedDStmt"}}
+        affected = {"gen_translate.py": {"Translated", "TranslatedFlows", "TranslatedEnc", "TranslatedDec", "TranslatedStmt", "TranslatedStream"},
+                    "gen_translate_flows.py": {"TranslatedFlows", "TranslatedStream"},
+                    "gen_translate_funcs.py": {"TranslatedFuncs", "TranslatedEnc", "TranslatedStmt", "TranslatedStream"},
+                    "gen_translate_enc.py": {"TranslatedEnc", "TranslatedStmt", "TranslatedStream"},
+                    "gen_translate_dec.py": {"TranslatedDec"}, "gen_translate_stmt.py": {"TranslatedStmt", "TranslatedStream"},
+                    "gen_translate_dstmt.py": {"TranslatedDStmt"}, "gen_translate_stream.py": {"TranslatedStream"}}
         for script, mods in affected.items():
             rc, out = sh([sys.executable, str(VERIF / "harness" / script)], cwd=VERIF / "harness")
             res.log += out
